@@ -123,6 +123,23 @@ CLAIMED = {
               "Not decided: equality of results of repeated calls on generated functions (follows from the above plus C07)."),
         technique="class-hierarchy-wide const/mutable inventory, who-may-write rule over resolved accesses, def-use checks",
         ref="DESIGN.md section 4 C08"),
+    "C10": dict(
+        text=("Decides the structural clauses of exception delivery: (1) all try statements of the library whose body can "
+              "reach user code (script functions, registered C++ functions, conversion callbacks; reachability over the "
+              "resolved call graph incl. virtual/indirect calls, with the checked fact that boxed_cast without a conversions "
+              "object runs no callback) are enumerated and every handler is an engine-internal type, an unconditional "
+              "rethrow or one of three documented conversions - any other handler could swallow or replace a user "
+              "exception; (2) the script-level try statement is analysed path by path with an abstract interpreter "
+              "(clause matcher inlined, an exceptional edge at every child evaluation): no path on which an exception "
+              "is caught, no clause ran, and evaluation continues normally; on every exit - normal, handled, unmatched, "
+              "catch-all, a catch body that throws, return/break through the statement - the finally block is evaluated "
+              "exactly once; at most one clause runs, in source order, each in its own scope; (3) the throw builtin throws "
+              "exactly its argument, exception specifications throw the unboxed value and swallow only bad_boxed_cast, the "
+              "call-stack annotation catches by reference, appends once and rethrows the same object, and a script-thrown "
+              "Boxed_Value leaves eval unchanged. Not decided: end-to-end traces of generated try/catch nests across "
+              "frame kinds (needs execution); user code that itself throws the engine's internal exception types."),
+        technique="handler classification over call-graph reachability + typestate/path enumeration of the try statement by abstract interpretation",
+        ref="DESIGN.md section 4 C10"),
 }
 
 NOT_YET = "check not built yet in this session (design in DESIGN.md section 4); will be claimed once its rules run clean both ways"
